@@ -249,6 +249,8 @@ class SymList:
         n0, f0 = self.n, self.f
         self.n = simp(to_z3(n0) + 1)
         self.f = lambda i: _pick_or(to_z3(i) == to_z3(n0), v, f0, i)
+        # for invariants over lists of objects that cannot be merged by if-then-else: the last append, as (old length, value, old f)
+        self.last_append = (n0, v, f0)
 
 
 class MaybeNan:
